@@ -44,6 +44,9 @@ func getStatusWithMetadata(
 	updatedStatus.ResourcesStatus.Allocated = metaData.Allocated
 	if !metaData.Preemptible {
 		updatedStatus.ResourcesStatus.AllocatedNonPreemptible = metaData.Allocated
+	} else if len(updatedStatus.ResourcesStatus.AllocatedNonPreemptible) > 0 {
+		// nothing of a preemptible pod group counts as non-preemptible, whatever it was before
+		updatedStatus.ResourcesStatus.AllocatedNonPreemptible = nil
 	}
 
 	return updatedStatus
